@@ -16,7 +16,12 @@ CONF = dict(
           '(own RFC 8915 label/contexts), error class, returned keys/server/port/algorithm/cookies. ke.target: the real client.MeasureClockOffsetIP with NTS: 1..3 '
           'measurements, each needing a new exchange that names a server and/or port or nothing; which of four UDP sockets gets the NTP request and whether it carries the '
           'cookie just issued. ke.own: Fetcher and client against the project\'s StartNTSKEServerIP + StartIPServer: cookies opened with the provider key and compared with '
-          'the client\'s keys, authenticated measurement succeeds. ke.quic: the same histories (same case format, 150 per quick run + a truncation sweep + every ALPN list) on a '
+          'the client\'s keys, authenticated measurement succeeds (the NTP listener is on a non-default port, so the Port record of newNTSKEMsg matters). ke.ownq: the same against '
+          'StartNTSKEServerSCION (handleKeyExchangeQUIC) + StartSCIONServer with a QUIC Fetcher and the real SCION client. ke.starget: the real client.MeasureClockOffsetSCION with NTS '
+          '(time server in the own AS, empty path; Fetcher over TLS or over QUIC): exchanges naming same host/other port, other host/same port, both, only one, nothing, and re-key '
+          'sequences; observed: which UDP socket receives the datagram (underlay destination) AND destination host and port of the SCION/UDP header inside, cookie carried. '
+          'Every third ke.hist history gives the Fetcher the name "localhost" (listener at 127.0.0.1) for some exchanges: the default server is the connection\'s remote '
+          'address, not the configured name. Big acceptable messages (17..64 cookies, unrecognised non-critical bodies up to 60000 bytes, 255-byte server names, > 16 KB) on both transports. ke.quic: the same histories (same case format, 150 per quick run + a truncation sweep + every ALPN list) on a '
           'real Fetcher with QUIC.Enabled against a scripted QUIC/SCION peer (the project\'s scion.ListenQUIC, one AS, empty path; ALPN list per connection attempt, stream '
           'written in pieces, ended, held open, or the connection dropped before the first byte): a third of them are the D-C20b shapes (first exchange names nothing; named '
           'target - pool used up or a failure - exchange naming nothing; good exchange - exchange without algorithm record), one history has dial failures (nothing answers, '
@@ -50,8 +55,9 @@ CONF = dict(
     explanation=('oracle clauses: no connection while cookies are left and the returned keys/target/pool are those of the last exchange minus cookies used plus cookies stored; with an '
                  'empty pool exactly one connection (or a dial error when nothing listens); success iff ALPN ntske/1 and end record reached before any error/unrecognised critical '
                  'record with last algorithm 15 and >= 1 cookie among the completely delivered records; keys equal to the peer\'s exporter output; pool = cookies issued in order; '
+                 'for scripts that are not strict: every cookie, a server other than the key-exchange host and a port other than the standard one occur in the bytes sent; '
                  'server/port = last named ones or key-exchange host/123 (over SCION: host of the configured remote address/10123); NTP request goes to that socket with the issued cookie; own server: cookies contain the client\'s keys'),
     timeout_quick=900,
     timeout_thorough=3000,
-    min_cases={'ke.hist': 799, 'ke.own': 3, 'ke.quic': 1, 'ke.target': 14},
+    min_cases={'ke.hist': 802, 'ke.own': 3, 'ke.ownq': 3, 'ke.quic': 63, 'ke.starget': 19, 'ke.target': 14},
 )
